@@ -868,4 +868,226 @@ theorem retryKey_zone_first (H : Hash) (t : Table) (now : Int) (k : QKey) (r : U
       · simpa using h.symm
     · simpa using h.symm
 
+
+/-! ### single-flight keys -/
+
+theorem firstActiveZone_none_inactive (H : Hash) (t : Table) (now : Int) (cls : Nat) :
+    ∀ (zs : List Str), firstActiveZone H t now cls zs = none →
+      ∀ z ∈ zs, ∀ e, loadZone H t ⟨z, cls⟩ = some e → ¬ now < e.retryAfter := by
+  intro zs
+  induction zs with
+  | nil => intro _ z hz; simp at hz
+  | cons z0 rest ih =>
+    intro h z hz e he
+    unfold firstActiveZone at h
+    split at h
+    · rename_i e0 he0
+      split at h
+      · cases h
+      · rename_i hact
+        rcases List.mem_cons.mp hz with rfl | hz
+        · rw [he0] at he; cases he; exact hact
+        · exact ih h z hz e he
+    · rename_i hnone
+      rcases List.mem_cons.mp hz with rfl | hz
+      · rw [hnone] at he; cases he
+      · exact ih h z hz e he
+
+theorem retryWalk_total (H : Hash) (t : Table) (now : Int) (cls : Nat) :
+    ∀ (zs : List Str) (acc : Option UInt64),
+      (∀ z ∈ zs, ∀ e, loadZone H t ⟨z, cls⟩ = some e → ¬ now < e.retryAfter) →
+      ∃ r, retryWalk H t now cls zs acc = some r := by
+  intro zs
+  induction zs with
+  | nil => intro acc _; exact ⟨acc, rfl⟩
+  | cons z rest ih =>
+    intro acc h
+    unfold retryWalk
+    have hr := fun z' hz' => h z' (List.mem_cons_of_mem _ hz')
+    cases hl : loadZone H t ⟨z, cls⟩ with
+    | none => exact ih acc hr
+    | some e =>
+      have := h z List.mem_cons_self e hl
+      simp only [this, if_false]
+      exact ih _ hr
+
+/-- nothing active + retained zone state on the path ⇒ the retry key exists and is that zone's. -/
+theorem retryKey_of_inactive_zone (H : Hash) (t : Table) (now : Int) (k : QKey) (z : Str)
+    (hmiss : lookup H t now k = none)
+    (hz : firstStored H t (normalizeQ k).qclass (walkZones (normalizeQ k).name) = some z) :
+    retryKey H t now k = some (H.z (normalizeZ ⟨z, (normalizeQ k).qclass⟩)) := by
+  unfold lookup at hmiss
+  simp only at hmiss
+  have hzone : firstActiveZone H t now (normalizeQ k).qclass (walkZones (normalizeQ k).name) = none := by
+    split at hmiss
+    · split at hmiss
+      · cases hmiss
+      · exact hmiss
+    · exact hmiss
+  have hin := firstActiveZone_none_inactive H t now _ _ hzone
+  obtain ⟨r, hr⟩ := retryWalk_total H t now _ _ none hin
+  have hk := retryWalk_key H t now _ _ _ _ hr
+  simp only [hz, Option.map_some] at hk
+  subst hk
+  unfold retryKey
+  simp only [hr]
+  split
+  · rename_i e he
+    split
+    · rename_i hact
+      rw [he] at hmiss
+      simp [hact] at hmiss
+    · rfl
+  · rfl
+
+theorem distinctCount_all_eq (a : DedupKey) : ∀ (l : List DedupKey), l ≠ [] → (∀ x ∈ l, x = a) →
+    distinctCount l = 1 := by
+  intro l
+  induction l with
+  | nil => intro h; exact absurd rfl h
+  | cons x t ih =>
+    intro _ hall
+    unfold distinctCount
+    have hx : x = a := hall x List.mem_cons_self
+    cases t with
+    | nil => simp [distinctCount]
+    | cons y t' =>
+      have hy : y = a := hall y (List.mem_cons_of_mem _ List.mem_cons_self)
+      have hc : (y :: t').contains x = true := by
+        rw [hx, hy]; simp
+      rw [hc, ih (by simp) (fun z hz => hall z (List.mem_cons_of_mem _ hz))]
+      simp
+
+
+/-! ### names decoded from the wire are well-formed (rooted) -/
+
+/-- escape state after reading `xs`. -/
+def scan (odd : Bool) (xs : Str) : Bool := xs.foldl escNext odd
+
+theorem scan_append (odd : Bool) (a b : Str) : scan odd (a ++ b) = scan (scan odd a) b := by
+  unfold scan; exact List.foldl_append
+
+theorem isFqdnAux_append_dot : ∀ (xs : Str) (odd : Bool), isFqdnAux odd (xs ++ [dot]) = !(scan odd xs) := by
+  intro xs
+  induction xs with
+  | nil => intro odd; simp [isFqdnAux, scan]
+  | cons c t ih =>
+    intro odd
+    have hstep : isFqdnAux odd (c :: (t ++ [dot])) = isFqdnAux (escNext odd c) (t ++ [dot]) := by
+      cases t with
+      | nil => simp [isFqdnAux]
+      | cons d t' => simp [isFqdnAux]
+    rw [List.cons_append, hstep, ih]
+    simp [scan]
+
+theorem escNext_after_bslash (c : Nat) : escNext true c = false := by
+  unfold escNext; split <;> simp
+
+theorem scan_escByte (b : Nat) : scan false (escByte b) = false := by
+  unfold escByte
+  split
+  · simp [scan, escNext]
+  · split
+    · have h2 : (48 + b / 10 % 10 = bslash) = False := by unfold bslash; simp; omega
+      have h3 : (48 + b % 10 = bslash) = False := by unfold bslash; simp; omega
+      simp only [scan, List.foldl]
+      rw [show escNext false bslash = true by simp [escNext]]
+      rw [escNext_after_bslash]
+      simp [escNext, h3]
+    · rename_i hs _
+      have : b ≠ bslash := by
+        intro hb; apply hs; rw [hb]; decide
+      simp [scan, escNext, this]
+
+theorem scan_flatMap_escByte : ∀ (bs : List Nat), scan false (bs.flatMap escByte) = false := by
+  intro bs
+  induction bs with
+  | nil => rfl
+  | cons b t ih => rw [List.flatMap_cons, scan_append, scan_escByte, ih]
+
+/-- what `writeWireName` emits: nothing more (after a label), or a string that
+ends in an unescaped dot. -/
+def Rooted (p : Str) : Prop := p = [] ∨ ∃ q, p = q ++ [dot] ∧ scan false q = false
+
+theorem wirePresAux_rooted : ∀ (f : Nat) (w : Wire) (wrote : Bool) (p : Str),
+    wirePresAux f w wrote = some p → Rooted p ∧ (wrote = false → p ≠ []) := by
+  intro f
+  induction f with
+  | zero => intro w wrote p h; simp [wirePresAux] at h
+  | succ f ih =>
+    intro w wrote p h
+    cases w with
+    | nil => simp [wirePresAux] at h
+    | cons c rest =>
+      unfold wirePresAux at h
+      split at h
+      · split at h
+        · cases h
+          cases wrote
+          · exact ⟨Or.inr ⟨[], rfl, rfl⟩, fun _ => by simp⟩
+          · exact ⟨Or.inl rfl, fun hw => by cases hw⟩
+        · cases h
+      · split at h
+        · cases h
+        · split at h
+          · cases h
+          · cases hr : wirePresAux f (rest.drop c) true with
+            | none => rw [hr] at h; cases h
+            | some tl =>
+              rw [hr] at h
+              simp only [Option.map_some, Option.some.injEq] at h
+              subst h
+              obtain ⟨hroot, _⟩ := ih _ _ _ hr
+              have hL := scan_flatMap_escByte (rest.take c)
+              refine ⟨Or.inr ?_, fun _ => by simp⟩
+              rcases hroot with rfl | ⟨q, rfl, hq⟩
+              · exact ⟨(rest.take c).flatMap escByte, by simp, hL⟩
+              · refine ⟨(rest.take c).flatMap escByte ++ [dot] ++ q, by simp, ?_⟩
+                rw [scan_append, scan_append, hL]
+                have : scan false [dot] = false := by simp [scan, escNext, dot, bslash]
+                rw [this, hq]
+
+theorem escNext_foldByte (odd : Bool) (c : Nat) : escNext odd (foldByte c) = escNext odd c := by
+  unfold escNext foldByte bslash
+  by_cases h : 65 ≤ c ∧ c ≤ 90
+  · have h1 : ¬ c + 32 = 92 := by omega
+    have h2 : ¬ c = 92 := by omega
+    simp [h, h1, h2]
+  · simp [h]
+
+theorem scan_foldStr : ∀ (q : Str) (odd : Bool), scan odd (foldStr q) = scan odd q := by
+  intro q
+  induction q with
+  | nil => intro odd; rfl
+  | cons c t ih =>
+    intro odd
+    have : foldStr (c :: t) = foldByte c :: foldStr t := rfl
+    rw [this]
+    simp only [scan, List.foldl] at ih ⊢
+    rw [escNext_foldByte]
+    exact ih _
+
+/-- **every name the wire decoder can produce is rooted**, also after folding:
+the well-formedness hypothesis of the label-wise and success-reset theorems
+holds for all wire-born names. -/
+theorem wirePres_wellformed (w : Wire) (p : Str) (h : wirePres w = some p) :
+    isFqdn p = true ∧ isFqdn (canonicalName p) = true ∧ isFqdn (canonicalName (foldStr p)) = true := by
+  unfold wirePres at h
+  split at h
+  · cases h
+  · obtain ⟨hroot, hne⟩ := wirePresAux_rooted _ _ _ _ h
+    rcases hroot with rfl | ⟨q, rfl, hq⟩
+    · exact absurd rfl (hne rfl)
+    · have h1 : isFqdn (q ++ [dot]) = true := by
+        unfold isFqdn; rw [isFqdnAux_append_dot, hq]; rfl
+      have hfold : foldStr (q ++ [dot]) = foldStr q ++ [dot] := by
+        unfold foldStr; rw [List.map_append]; rfl
+      have h2 : isFqdn (foldStr (q ++ [dot])) = true := by
+        rw [hfold]; unfold isFqdn; rw [isFqdnAux_append_dot, scan_foldStr, hq]; rfl
+      have hc : canonicalName (q ++ [dot]) = foldStr (q ++ [dot]) := by
+        unfold canonicalName fqdn; rw [h1]; rfl
+      have hc2 : canonicalName (foldStr (q ++ [dot])) = foldStr (q ++ [dot]) := by
+        unfold canonicalName fqdn; rw [h2]; simp only [if_true]; exact foldStr_idem _
+      exact ⟨h1, by rw [hc]; exact h2, by rw [hc2]; exact h2⟩
+
 end SdnsVerif.Lemmas.FailCache
